@@ -1,15 +1,18 @@
 #!/usr/bin/env python3
 """Small helper process: runs many short commands (argv, stdin as hex) read as JSON from stdin, 16 at a time, and prints JSON
-[[rc, stderr-tail] | null (timeout)].  Spawning from this small process is cheap; spawning hundreds of children from the
+[[rc, stderr-tail] | null (timeout) | "skip" (not run: 12 earlier runs did not terminate)].  Spawning from this small process is cheap; spawning hundreds of children from the
 check process (hundreds of MB of case data) costs ~0.1 s of page-table copying each."""
 import json, subprocess, sys
 from concurrent.futures import ThreadPoolExecutor
+HANGS = [0]
 def one(j):
     argv, hexin, timeout = j
+    if HANGS[0] >= 12: return "skip"       # enough runs that do not terminate have been found
     try:
         r = subprocess.run(argv, input=bytes.fromhex(hexin), capture_output=True, timeout=timeout)
         return [r.returncode, r.stderr.decode("latin-1")[-3000:]]
     except subprocess.TimeoutExpired:
+        HANGS[0] += 1
         return None
 def main():
     jobs = json.load(sys.stdin)
